@@ -6,7 +6,7 @@ import ast
 from sa.astx import call_name, src
 from sa.selftest import Mutant, Silent
 from sa.source import AnalysisError, class_assigns
-from sa.props._lib_i import sect, COMPAT, BlockRaised, NotPure, Raised, eval_block, interp, module_env, peval, words
+from sa.props._lib_i import sect, COMPAT, BlockRaised, NotPure, Raised, eval_block, interp, peval, words
 
 PROPERTY = "C42"
 IMAP = "mail/imap4.py"
